@@ -11,6 +11,7 @@ import Blue.Proofs.LogFrameDamage
 import Blue.Proofs.LogZeroFrame
 import Blue.Proofs.LogFragment
 import Blue.Proofs.LogDamageMulti
+import Blue.Proofs.LogDamageTrunc
 import Blue.Proofs.SstDamage
 import Blue.Proofs.SstDamageImage
 import Blue.Proofs.SstDamageExamples
@@ -84,6 +85,21 @@ single-bit flip, every truncation, overwrites, suffixes, short sequences).
   `log_whole_not_whole_detected`, `log_whole_to_first_detected` (a `WHOLE` read as `FIRST` with
   further appends behind it is an error: behind the end of an append the log never shows a `SECOND`
   frame).
+* *Log, damage combined with a cut and with bytes behind the log* (block `LogDamageTrunc`,
+  `Blue/Proofs/LogDamageTrunc.lean`): the image read is `e.take m`, `e` at least as long as the log
+  (the log with any bytes changed, then anything), `m` any cut.  `log_damage_then_cut`,
+  `log_never_silent_under_damage_and_cut` (both from `cut_core`): a prefix of the appended batches,
+  then an error or a clean end; the full list only if every append lies before the cut and still
+  decodes; otherwise the reader stops at the first append the cut falls in or whose bytes changed,
+  with a clean end only for a cut at that append's boundary or in zero bytes up to the next block
+  boundary at most `H + 1` behind it (`clean_end_only_at_boundary`, `clean_end_iff`).  Hypotheses:
+  those of `log_damage_anywhere` on `e`, and the exclusion of the D-29 class ALSO on the image that
+  is read (`cut_makes_d29`: a cut can complete an instance).  Bytes behind the log:
+  `log_extended_with_garbage` (all batches, the reader goes on at the end of the log),
+  `garbage_is_error` (`NoFrameAt` there), `zero_tail_reads` (a zero tail is a clean end iff it does
+  not reach beyond a block boundary at most `H + 1` bytes behind the end of the log; an error
+  otherwise).  Bytes behind the log that ARE a frame passing its CRC are read as a batch (no
+  format without authentication refuses them): hypothesis `htail`.
 * *Not detected, by design of the formats* (findings, see the run's KNOWN-FINDING lines):
   `final_block_metadata_not_detected` (D-10).  (D-11 — the log reader took a zeroed header-length
   byte close to a block boundary for padding and dropped the frame — is repaired:
@@ -1189,6 +1205,188 @@ example := frame_no_collision_of_header_and_payload (P := toyFrameParams) toy3Hd
 end logdamagemulti
 -- END LogDamageMulti
 
+-- BEGIN LogDamageTrunc
+/-! ## log: damage COMBINED with a cut, and bytes behind the log (`Blue/Proofs/LogDamageTrunc.lean`)
+
+The image that is read is `e.take m`: `e` is any file at least as long as the log (first the log
+with any bytes changed, then anything), `m ≤ e.length` any cut.  `CutHyp P bufs e m`: the hypotheses
+of `log_damage_anywhere` on `e` (`TouchedHyp`, `TouchedNotD29`; of the frames whose bytes changed)
+and `TouchedNotD29` on the image that is read — a cut can complete an instance of finding D-29
+(`cut_makes_d29`).  `StopsAt P e m q b flag`: the reader stops at the append of `b` that starts at
+`q ≤ m`, the cut falls in that append or its bytes changed, with an error — or, only when the cut
+falls in it, with a clean end (`CleanEndAt`).  `CleanEndAt P c q` is `nextHeader P c 2 q = .eof`
+spelled out (`clean_end_iff`): the file ends at `q`, or `c[q] = 0`, the block boundary is at most
+`H` bytes behind it, every byte the file still has before the boundary is zero and the file ends at
+or before the boundary (sst/src/log.rs `next_header` l. 737-751, `true_up` l. 773-792). -/
+section logdamagetrunc
+open Blue.Log Blue.Damage
+variable {P : Params}
+
+/-- **(1) damage, then a cut at any `m`**: the whole list and a clean end only if nothing was cut;
+    otherwise exactly the batches before the first append the cut falls in or whose bytes changed,
+    then an error, or — only for a cut that falls in that append — a clean end -/
+theorem log_damage_then_cut (g : Good P) (bufs : List (List Nat)) (hsz : ∀ x ∈ bufs, x.length ≤ P.tableFull)
+    (d : List Nat) (hlen : d.length = (writeAll P bufs 0).length) (m : Nat) (hm : m ≤ d.length)
+    (hyp : CutHyp P bufs d m) :
+    (m = d.length ∧ ∀ k, readSome P (d.take m) (bufs.length + 1 + k) 0 = (bufs, false))
+    ∨ ∃ bufs1 b bufs2 flag, bufs = bufs1 ++ b :: bufs2
+        ∧ StopsAt P d m (startOf P bufs1) b flag
+        ∧ ∀ k, readSome P (d.take m) (bufs.length + 1 + k) 0 = (bufs1, flag) :=
+  Blue.Log.log_damage_then_cut g bufs hsz d hlen m hm hyp
+
+/-- the clean end, spelled out -/
+theorem clean_end_iff (c : List Nat) (q : Nat) : nextHeader P c 2 q = .eof ↔ CleanEndAt P c q :=
+  Blue.Log.nextHeader_eof_iff c q
+
+/-- **which cuts read as a clean end**: the cut is AT the boundary of the append the reader stopped
+    at, or every byte from that boundary to the cut is zero, the cut is not beyond the next block
+    boundary and that boundary is at most `H + 1` bytes behind the append boundary (on intact
+    bytes: the cut falls in the append's leading padding) -/
+theorem clean_end_only_at_boundary (e : List Nat) (m q : Nat) (b : List Nat) (hm : m ≤ e.length)
+    (h : StopsAt P e m q b false) :
+    m = q ∨ (q < m ∧ e[q]? = some 0 ∧ m ≤ trueUp P (q + 1) ∧ trueUp P (q + 1) - (q + 1) ≤ P.H
+      ∧ padZero (e.take m) (q + 1) (trueUp P (q + 1)) = true) :=
+  Blue.Log.clean_end_only_at_boundary e m q b hm h
+
+/-- **(2) bytes behind the log**: the batches before an append whose bytes changed and an error, or
+    ALL batches, the reader going on at the end of the log -/
+theorem log_extended_with_garbage (g : Good P) (bufs : List (List Nat)) (hsz : ∀ x ∈ bufs, x.length ≤ P.tableFull)
+    (e : List Nat) (hlen : (writeAll P bufs 0).length ≤ e.length)
+    (hyp : ∀ bufs1 b bufs2, bufs = bufs1 ++ b :: bufs2 →
+      TouchedHyp P e (startOf P bufs1) b ∧ TouchedNotD29 P e (startOf P bufs1) b) :
+    (∀ n, readSome P e (bufs.length + n) 0
+        = (bufs ++ (readSome P e n (startOf P bufs)).1, (readSome P e n (startOf P bufs)).2))
+    ∨ ∃ bufs1 b bufs2, bufs = bufs1 ++ b :: bufs2
+        ∧ slice e (startOf P bufs1) (appendAt P 2 (startOf P bufs1) b).length ≠ appendAt P 2 (startOf P bufs1) b
+        ∧ nextBatch P e 2 (startOf P bufs1) = .err
+        ∧ ∀ k, readSome P e (bufs.length + 1 + k) 0 = (bufs1, true) :=
+  Blue.Log.log_extended_with_garbage g bufs hsz e hlen hyp
+
+/-- (2) what follows starts with a non-zero byte and spells no frame that passes its CRC: an error -/
+theorem garbage_is_error (e : List Nat) (L y : Nat) (hx : e[L]? = some y) (hy : y ≠ 0)
+    (hno : NoFrameAt P e L) : nextBatch P e 2 L = .err :=
+  Blue.Log.garbage_is_error e L y hx hy hno
+
+/-- (2) **a zero-filled tail** (pre-allocation): a clean end iff it is empty, or the block boundary
+    behind its first byte is at most `H` bytes away and the tail does not reach beyond it; an error
+    otherwise (in particular every zero tail that starts at a block boundary or crosses one) -/
+theorem zero_tail_reads (g : Good P) (d : List Nat) (z : Nat) :
+    (CleanEndAt P (d ++ zeros z) d.length → nextBatch P (d ++ zeros z) 2 d.length = .eof)
+    ∧ (¬ CleanEndAt P (d ++ zeros z) d.length → nextBatch P (d ++ zeros z) 2 d.length = .err)
+    ∧ (CleanEndAt P (d ++ zeros z) d.length ↔
+        z = 0 ∨ (trueUp P (d.length + 1) - (d.length + 1) ≤ P.H ∧ d.length + z ≤ trueUp P (d.length + 1))) :=
+  Blue.Log.zero_tail_reads g d z
+
+/-- **(3) never silent under damage, a cut and bytes appended**: what follows the log not being
+    readable as a batch (`htail`), the result is a prefix of the appended batches with an error or a
+    clean end; the FULL list only if every append lies before the cut and still decodes — then the
+    end is clean iff the end of the log reads as one (`CleanEndAt`) —; short of it the reader stops
+    at the first append the cut falls in or whose bytes changed, with a clean end only for a cut at
+    that append's boundary (`clean_end_only_at_boundary`) -/
+theorem log_never_silent_under_damage_and_cut (g : Good P) (bufs : List (List Nat))
+    (hsz : ∀ x ∈ bufs, x.length ≤ P.tableFull)
+    (e : List Nat) (hlen : (writeAll P bufs 0).length ≤ e.length) (m : Nat) (hm : m ≤ e.length)
+    (hyp : CutHyp P bufs e m)
+    (htail : ∀ r, nextBatch P (e.take m) 2 (startOf P bufs) ≠ .ok r) :
+    (startOf P bufs ≤ m
+      ∧ ((CleanEndAt P (e.take m) (startOf P bufs)
+            ∧ ∀ k, readSome P (e.take m) (bufs.length + 1 + k) 0 = (bufs, false))
+         ∨ (nextBatch P (e.take m) 2 (startOf P bufs) = .err
+            ∧ ∀ k, readSome P (e.take m) (bufs.length + 1 + k) 0 = (bufs, true))))
+    ∨ ∃ bufs1 b bufs2 flag, bufs = bufs1 ++ b :: bufs2
+        ∧ StopsAt P e m (startOf P bufs1) b flag
+        ∧ ∀ k, readSome P (e.take m) (bufs.length + 1 + k) 0 = (bufs1, flag) :=
+  Blue.Log.log_never_silent_under_damage_and_cut g bufs hsz e hlen m hm hyp htail
+
+/-- (3), the converse: every append's bytes intact: all batches, the reader going on behind them -/
+theorem intact_reads_full (g : Good P) (bufs : List (List Nat)) (hsz : ∀ x ∈ bufs, x.length ≤ P.tableFull)
+    (e : List Nat) (hlen : (writeAll P bufs 0).length ≤ e.length)
+    (hun : ∀ bufs1 b bufs2, bufs = bufs1 ++ b :: bufs2 →
+      slice e (startOf P bufs1) (appendAt P 2 (startOf P bufs1) b).length = appendAt P 2 (startOf P bufs1) b)
+    (hyp : ∀ bufs1 b bufs2, bufs = bufs1 ++ b :: bufs2 →
+      TouchedHyp P e (startOf P bufs1) b ∧ TouchedNotD29 P e (startOf P bufs1) b) :
+    ∀ n, readSome P e (bufs.length + n) 0
+        = (bufs ++ (readSome P e n (startOf P bufs)).1, (readSome P e n (startOf P bufs)).2) :=
+  Blue.Log.intact_reads_full g bufs hsz e hlen hun hyp
+
+/-- **the exclusion of D-29 must be asked of the image that is READ**: OBSERVATION on the toy
+    parameters — every hypothesis of `log_damage_anywhere` holds of the uncut image (it reads as an
+    error), cut at the END of the zeroed second append the image is in the class and reads as the
+    first batch and a clean end, while the pristine log cut there delivers two batches -/
+theorem cut_makes_d29 :
+    framesOf toyFrameParams 2 11 [] = [(11, WHOLE, [])]
+    ∧ logCheck toyFrameParams true toyCut29Image toyCut29 0 = true
+    ∧ readSome toyFrameParams toyCut29Image 4 0 = ([[1, 2, 3, 4, 5, 6, 7]], true)
+    ∧ readSome toyFrameParams ((writeAll toyFrameParams toyCut29 0).take 15) 4 0 = ([[1, 2, 3, 4, 5, 6, 7], []], false)
+    ∧ readSome toyFrameParams (toyCut29Image.take 15) 4 0 = ([[1, 2, 3, 4, 5, 6, 7]], false)
+    ∧ ¬ ZeroedFrameInPadWindow toyFrameParams toyCut29Image 11
+    ∧ ZeroedFrameInPadWindow toyFrameParams (toyCut29Image.take 15) 11 :=
+  Blue.Log.cut_makes_d29
+
+/-! non-vacuity on the toy parameters (`B = 16`, `H = 4`; `toy3`: frames at 0..7, 7..13, padding
+    13..16, a frame at 16..21; `toy3HdrPay`: header and payload of the 2nd append damaged) -/
+
+/-- (1) damage in append 2 and a cut inside append 3 (at 19): the first batch, then an error -/
+example := log_damage_then_cut good_toyFrame toy3 (by decide) toy3HdrPay (by decide) 19 (by decide)
+    (cutHyp_of_logCheck (by decide) (by decide))
+example : readSome toyFrameParams (toy3HdrPay.take 19) 4 0 = ([[1, 2, 3]], true)
+    ∧ readSome toyFrameParams (toy3Log.take 19) 4 0 = ([[1, 2, 3], [4, 5]], true)
+    ∧ StopsAt toyFrameParams toy3HdrPay 19 7 [4, 5] true := by decide
+
+/-- (1) a cut inside the damaged append 2 (at 12): the first batch, then an error -/
+example := log_damage_then_cut good_toyFrame toy3 (by decide) toy3HdrPay (by decide) 12 (by decide)
+    (cutHyp_of_logCheck (by decide) (by decide))
+example : readSome toyFrameParams (toy3HdrPay.take 12) 4 0 = ([[1, 2, 3]], true)
+    ∧ StopsAt toyFrameParams toy3HdrPay 12 7 [4, 5] true := by decide
+
+/-- (1) the pristine log cut in the leading padding of append 3 (at 14) and at the append boundary
+    13: two batches and a clean end; `clean_end_only_at_boundary` on both -/
+example : readSome toyFrameParams (toy3Log.take 14) 4 0 = ([[1, 2, 3], [4, 5]], false)
+    ∧ readSome toyFrameParams (toy3Log.take 13) 4 0 = ([[1, 2, 3], [4, 5]], false)
+    ∧ StopsAt toyFrameParams toy3Log 14 13 [6] false
+    ∧ StopsAt toyFrameParams toy3Log 13 13 [6] false := by decide
+example := clean_end_only_at_boundary (P := toyFrameParams) toy3Log 14 13 [6] (by decide) (by decide)
+example := clean_end_only_at_boundary (P := toyFrameParams) toy3Log 13 13 [6] (by decide) (by decide)
+
+/-- (2) bytes behind the damaged log -/
+example := log_extended_with_garbage good_toyFrame toy3 (by decide) (toy3HdrPay ++ [9, 9]) (by decide)
+    (fun b1 b b2 h => ⟨(hyps_of_logCheck (z := true) (by decide) b1 b b2 h).1,
+      (hyps_of_logCheck (z := true) (by decide) b1 b b2 h).2 rfl⟩)
+/-- (2) garbage behind the pristine log: `[9, 9]` at 21 is a header length above `H` -/
+example := garbage_is_error (P := toyFrameParams) (toy3Log ++ [9, 9]) 21 9 (by decide) (by decide)
+    (padCheck_spec (by decide))
+example : readSome toyFrameParams (toy3Log ++ [9, 9]) 5 0 = ([[1, 2, 3], [4, 5], [6]], true) := by decide
+
+/-- (2) pristine log + zero tail.  `toy1Log` ends at 12, the boundary 16 is 3 bytes behind 13: up to
+    4 zero bytes read as a clean end, 5 (one at the boundary) are an error.  `toy3Log` ends at 21,
+    the boundary 32 is 10 bytes behind 22: every zero tail is an error. -/
+example := zero_tail_reads good_toyFrame toy1Log 4
+example : CleanEndAt toyFrameParams (toy1Log ++ zeros 4) toy1Log.length
+    ∧ ¬ CleanEndAt toyFrameParams (toy1Log ++ zeros 5) toy1Log.length
+    ∧ ¬ CleanEndAt toyFrameParams (toy3Log ++ zeros 3) toy3Log.length
+    ∧ readSome toyFrameParams (toy1Log ++ zeros 4) 3 0 = (toy1, false)
+    ∧ readSome toyFrameParams (toy1Log ++ zeros 5) 3 0 = (toy1, true)
+    ∧ readSome toyFrameParams (toy3Log ++ zeros 3) 5 0 = (toy3, true) := by decide
+
+/-- (3) the pristine log with a zero tail, read in full: all hypotheses hold together -/
+example := log_never_silent_under_damage_and_cut good_toyFrame toy3 (by decide) toy3Tail (by decide) 24 (by decide)
+    (cutHyp_of_logCheck (by decide) (by decide)) toy3Tail_unreadable
+/-- (3) damage in append 2, the zero tail, a cut inside append 3 -/
+example := log_never_silent_under_damage_and_cut good_toyFrame toy3 (by decide)
+    (toy3HdrPay ++ zeros 3) (by decide) 19 (by decide)
+    (cutHyp_of_logCheck (by decide) (by decide))
+    (fun r h => by
+      have h2 : nextBatch toyFrameParams ((toy3HdrPay ++ zeros 3).take 19) 2 (startOf toyFrameParams toy3) = .eof := by rfl
+      rw [h2] at h; cases h)
+/-- (3) converse on the pristine log with the zero tail -/
+example := intact_reads_full good_toyFrame toy3 (by decide) toy3Tail (by decide)
+    (intact_of_intactCheck (by decide))
+    (fun b1 b b2 h => ⟨(hyps_of_logCheck (z := true) (by decide) b1 b b2 h).1,
+      (hyps_of_logCheck (z := true) (by decide) b1 b b2 h).2 rfl⟩)
+
+end logdamagetrunc
+-- END LogDamageTrunc
+
 end Blue.Props.C09
 
 #print axioms Blue.Props.C09.constants_from_source
@@ -1270,3 +1468,12 @@ end Blue.Props.C09
 #print axioms Blue.Props.C09.log_disc_flip_table
 #print axioms Blue.Props.C09.frame_no_collision_of_header_and_payload
 #print axioms Blue.Props.C09.disc_fusion
+#print axioms Blue.Props.C09.log_damage_then_cut
+#print axioms Blue.Props.C09.clean_end_iff
+#print axioms Blue.Props.C09.clean_end_only_at_boundary
+#print axioms Blue.Props.C09.log_extended_with_garbage
+#print axioms Blue.Props.C09.garbage_is_error
+#print axioms Blue.Props.C09.zero_tail_reads
+#print axioms Blue.Props.C09.log_never_silent_under_damage_and_cut
+#print axioms Blue.Props.C09.intact_reads_full
+#print axioms Blue.Props.C09.cut_makes_d29
